@@ -8,6 +8,7 @@ CONSTANTS
   Corrs = {"none", "c"}
   Sts = {"ok", "fail"}
   Ns = {1}
+  Rgs = {1}
   Ts = {"tx", "err"}
   MaxId = 1
   MaxTx = 2
